@@ -1,5 +1,7 @@
 import MesaModel.Proofs.Legacy
 import MesaModel.Proofs.LegacyHist
+import MesaModel.Proofs.LegacyNetState
+import MesaModel.Proofs.LegacyReads
 /-!
 # C18 (legacy-grid part) — a mutating call that raises leaves all observable state unchanged
 
@@ -74,6 +76,72 @@ theorem C18_legacy_rejected_calls_deletable (g : Grid) (hw : 0 < g.w) (hh : 0 < 
   have i1 := (run_inv_cfg g ops hw hh hi hok).1
   have i2 := (run_inv_cfg g (accepted g ops) hw hh hi h2).1
   exact (step_cong op (run g ops) (run g (accepted g ops)) i1 i2 h1).1
+
+/-- **…and every later read shows the same**: after a history and after the same history without its rejected
+    calls, every read — `empties` (whether or not a rejected `move_to_empty` has meanwhile built the private set),
+    `exists_empty_cells`, `is_cell_empty` (any integers), `empty_mask`, `agents`, indexing in all its forms, cell
+    lists, contents and `pos` (hence neighbours) — gives the same answer -/
+theorem C18_legacy_reads_same_after_deletion (g : Grid) (hw : 0 < g.w) (hh : 0 < g.h) (hi : Inv g) (ops : List Op)
+    (hok : HistOk g ops) :
+    let g1 := run g ops
+    let g2 := run g (accepted g ops)
+    g2.readEmpties.2 = g1.readEmpties.2 ∧ g2.existsEmpty.2 = g1.existsEmpty.2 ∧
+    (∀ p, g2.isCellEmptyRaw p = g1.isCellEmptyRaw p) ∧ g2.mask = g1.mask ∧ g2.agentsList = g1.agentsList ∧
+    (∀ p, g2.getItem p = g1.getItem p) ∧
+    (∀ ix iy, g2.getItem2 ix iy = g1.getItem2 ix iy) ∧ (∀ i, g2.getColumn i = g1.getColumn i) ∧
+    (∀ ps, g2.getMany ps = g1.getMany ps) ∧ g2.content = g1.content ∧ g2.pos = g1.pos ∧
+    (∀ cells, g2.rawCells cells = g1.rawCells cells) ∧ (∀ cells, cellsContents g2 cells = cellsContents g1 cells) ∧
+    g2.dim = g1.dim := by
+  intro g1 g2
+  obtain ⟨h1, h2⟩ := run_accepted ops g g hw hh hi hi rfl hok
+  have i1 := (run_inv_cfg g ops hw hh hi hok).1
+  have i2 := (run_inv_cfg g (accepted g ops) hw hh hi h2).1
+  exact reads_cong g1 g2 i1 i2 ((obsEq_iff_forget _ _).mpr h1)
+
+/-- **NetworkGrid: a rejected call changes nothing at all** — `place_agent` / `move_agent` to a node that does
+    not exist (NG1: `move_agent` used to remove the agent first), `remove_agent` / `move_agent` of an agent that
+    is not in the space: the state after the KeyError is the state before it (for any state whatsoever) -/
+theorem C18_legacy_net_step_reject_unchanged (t : Net) (op : NOp) (e : Err) (h : (nstep t op).2 = .err e) :
+    (nstep t op).1 = t :=
+  nstep_err t op e h
+
+/-- when exactly a NetworkGrid call is rejected: a target node that does not exist, or (remove / move) an agent
+    with `pos = None` — in every state whose views agree -/
+theorem C18_legacy_net_rejects_exactly (t : Net) (hi : NetInv t) (a : Aid) (v : Nat) :
+    ((∃ e, (t.place a v).2 = .err e) ↔ ¬ v < t.n) ∧
+    ((∃ e, (t.remove a).2 = .err e) ↔ t.pos a = none) ∧
+    ((∃ e, (t.move a v).2 = .err e) ↔ ¬ v < t.n ∨ t.pos a = none) := by
+  refine ⟨?_, ?_, ?_⟩
+  · constructor
+    · rintro ⟨e, he⟩ hv; rw [(net_place_res t a v).1 hv] at he; cases he
+    · intro hv; exact ⟨.key, by rw [(net_place_res t a v).2 hv]⟩
+  · constructor
+    · rintro ⟨e, he⟩
+      cases hp : t.pos a with
+      | none => rfl
+      | some u => rw [(net_remove_placed t hi a u hp).1] at he; cases he
+    · intro hp; exact ⟨.key, by rw [net_remove_unplaced t a hp]⟩
+  · constructor
+    · rintro ⟨e, he⟩
+      by_cases hv : v < t.n
+      · cases hp : t.pos a with
+        | none => exact Or.inr rfl
+        | some u => rw [(net_move_placed t hi a u v hp hv).1] at he; cases he
+      · exact Or.inl hv
+    · rintro (hv | hp)
+      · exact ⟨.key, by rw [net_move_missing t a v hv]⟩
+      · exact ⟨.key, by rw [net_move_unplaced t a v hp]⟩
+
+/-- **a NetworkGrid history with rejected calls is the history with them deleted**: both end in the very same
+    state (so every later call and read behaves the same), the shortened history is within the quantifier and
+    none of its calls is rejected -/
+theorem C18_legacy_net_rejected_calls_deletable (t : Net) (ops : List NOp) (hok : NHistOk t ops) :
+    nrun t (naccepted t ops) = nrun t ops ∧ NHistOk t (naccepted t ops) ∧
+    ∀ pre op post, naccepted t ops = pre ++ op :: post → (nstep (nrun t pre) op).2 = .ok :=
+  ⟨(nrun_naccepted t ops hok).1, (nrun_naccepted t ops hok).2, naccepted_all_ok t ops⟩
+
+example : naccepted (Net.init 3 []) [.place 0 1, .move 0 7, .place 1 9, .remove 1, .move 0 2]
+    = [.place 0 1, .move 0 2] := by rfl
 
 /-- non-vacuity: a history with two rejected calls; deleting them leaves four calls -/
 example : accepted (init 3 3 false false 18)
